@@ -94,7 +94,7 @@ class _B:
         opts = ["null", "sleep", "checkpoint"]
         if self.profile == "replay_data":
             opts += ["monitor", "flyer", "subscribe", "configure", "stage_pair"]
-        if self.profile in ("general", "replay", "keys", "lifecycle"):
+        if self.profile in ("general", "replay", "keys", "lifecycle", "defer"):
             opts += ["monitor", "flyer", "subscribe", "rewindable", "configure", "stage_pair"]
         if self.profile == "replay":
             opts += ["monitor", "rewindable", "stage_pair", "subscribe"]
@@ -302,13 +302,15 @@ def cases(profile="general"):
             kinds = ["pause", "suspend", "pause", "defer"]
         elif profile == "lifecycle":
             kinds = ["pause", "defer", "suspend", "abort", "stop", "halt"]
+        elif profile == "defer":
+            kinds = ["defer"]
         elif profile == "nonresumable":
             kinds = ["pause", "suspend"]
         elif profile == "errors":
             kinds = []
         else:
             kinds = ["pause", "defer", "suspend", "abort", "stop", "halt"]
-        ninj = draw(st.integers(0 if profile in ("errors",) else 1, 2)) if kinds else 0
+        ninj = (1 if profile == "defer" else draw(st.integers(0 if profile in ("errors",) else 1, 2))) if kinds else 0
         injs = [_injection(draw, st, kinds) for _ in range(ninj)]
         stages = [{"do": "call", "inj": injs}]
         if profile in ("replay", "replay_data"):
@@ -317,6 +319,8 @@ def cases(profile="general"):
                 if draw(st.integers(0, 3)) == 0:
                     st2["inj"] = [_injection(draw, st, ["pause", "suspend"])]
                 stages.append(st2)
+        elif profile == "defer":
+            stages += [{"do": "resume"}, {"do": "resume"}]
         else:
             for _ in range(draw(st.integers(1, 3))):
                 stages.append({"do": draw(st.sampled_from(["resume", "resume", "abort", "stop", "halt"]))})
